@@ -39,8 +39,8 @@ TEXT = {
          "Coq proof (handler facts + transition-system mutex invariant) + differential correspondence + monitor"),
  "C12": ("Theorems: for all histories a timeout function runs only for a run persisted at that status, not stopped, not finished; memtimeoutstore refines the reference timeout store for every operation sequence (unknown IDs included); due <=> same workflow/status, not completed, expired; other timers untouched. For every state a poll cycle cancels a timer only directly after reading its run as moved/finished and completes it only directly after the stored transition (theorem on the cycle's trace). Monitor: fired only with an own due timer listed in this cycle.",
          TRUST, "Coq proof (token theorem + refinement by simulation) + differential correspondence + monitor"),
- "C13": ("Theorems: the error counter touches exactly its (error, process, run) key; for EVERY state maybePause never pauses without a count, below the count writes nothing, at the count pauses through the controller and clears. Monitor on the real engine: paused exactly at the n-th failure of that key since the last pause; auto-retry only after the interval.",
-         "The history-level count is decided by the monitor; per-operation arithmetic is proved. Counter key modelled as a triple. " + TRUST,
+ "C13": ("Theorems: the error counter touches exactly its (error, process, run) key; for EVERY state maybePause never pauses without a count, below the count writes nothing, at the count pauses through the controller and clears; for every history a count is moved only by a scheduling step of the process its key names on that instance or reset by a crash of it (C13_history_frame), and along any chain of failing invocations of one key the first n-1 do not pause and the n-th does (C13_exactly_nth), after which the count is 0. Monitor on the real engine: paused exactly at the n-th failure of that key since the last pause; auto-retry only after the interval.",
+         "The trace-level recount (n-th failing-invocation token since the last pause write) is the monitor's form; the count's movers along histories and its exactness along chains are theorems. Counter key modelled as a triple. " + TRUST,
          "Coq proof + differential correspondence + monitor"),
  "C14": ("Theorems: for all histories every write making a run Paused/Cancelled/Completed is, for the hook consumer of that state, in the outbox, or at/after its committed position, or the hook returned nil for that run, or the run's data was deleted; a failing hook is never acknowledged; an event of another state is acknowledged without invoking the hook (every state). " + ENGINE_Q,
          TRUST, "Coq proof (delivery + publish invariants over all histories; handler facts) + differential correspondence + at-quiescence monitor"),
